@@ -47,6 +47,18 @@ CLAIMED = {
  "C19": ("other", "SSA dominance and value-identity rules (headers ≺ sign ≺ send on one request value, signed bytes = sent bytes) + mutex typestate (E3 on sync.Mutex) + goroutine capture/write scan",
    "Cryptographic validity and races inside application code are not decided. Decided on all paths: required headers with the documented values dominate SignRequest; SignRequest receives key, key id, that request and exactly the body slice that feeds the request (nil for GET); no use of the request between signing and Do(req); each signer only under its own mutex, released on all paths; body read only for 200, Deliver nil only where isSuccess={200,201,202}; BatchDeliver: total loop, Add before go, deferred Done, channel capacity len(recipients), Wait before a non-blocking drain, error iff a failure was received and naming each; goroutines write no captured state, value receivers, no field stores.",
    "httpsig and net/http are trusted to do what they document. Trusted: go/types, go/ssa, go/cfg, checker engines E2/E3/E4.", "DESIGN.md §4 C19"),
+ "C01": ("other", "table extraction from the generated code (go/ast + go/types): reader/writer agreement of member names, representations and codec tables",
+   "Round-trip equality is value-level and not decided. Decided for all 63 types and 103 properties — conservation of members: every claimed member name is read unconditionally by exactly one property reader and vice versa (4 natural-language properties violate this: known finding D10); every read property is stored and emitted under its own name, unclaimed members are kept in unknown and re-emitted; every element reader returns exactly one representation (IRI / one member with its flag true / the raw value) and never drops a present value; scalar and one-element list share a reader and a single element is written as a scalar; @context is installed from all fields and nested ones removed; the duration and dateTime codecs' reader and writer tables agree.",
+   "Trusted: go/parser, go/types, the checker's JSON-LD reader, the extraction code. Only the shipped vocabularies; the generator is not analysed.", "DESIGN.md §4 C01"),
+ "C12": ("other", "exhaustive table extraction from the generated code compared with an independently computed ontology oracle",
+   "Decides the table clauses exhaustively: for each of the 63 types, eight tables (fields, getters, setters, reader calls, stored results, claimed names, serialise blocks, @context merges) equal the ontology's property set for the type (domain over ancestors minus withheld, plus id/type); for each of the 101+2 properties, the admitted type kinds equal the range closed under subclassing, literal kinds equal the literal ranges, each reader branch calls the deserialiser of the member it fills, IRI admitted, functional ⇔ single slot, natural-language ⇔ Map spelling handled, names and vocabulary URIs equal the ontology's; the duration/dateTime codec tables agree with the documented units. Numeric codec semantics beyond that are not decided.",
+   "Trusted: go/parser, go/types, ontology.go, e5_model.go. Generator templates not analysed.", "DESIGN.md §4 C12"),
+ "C14": ("other", "strict syntactic parse of the three generated dispatch chains + go/types resolution through the Manager, against the ontology's type list",
+   "Decides the dispatch relation exhaustively: every branch of JSONResolver.Resolve, TypeResolver.Resolve and TypePredicatedResolver.Apply (63 each) is parsed in strict form into (vocabulary, name, callback interface, value interface, deserialiser); each tuple must be self-consistent and name the interface of exactly the generated type with that name and vocabulary; branch set = ontology types, each once; only the first registered callback of exactly that signature is invoked and its result returned unchanged; ErrNoCallbackMatch / ErrUnhandledType / ErrPredicateUnmatched where documented; for a type array only ErrUnhandledType moves on; IsUnmatchedErr = the three sentinels; constructors accept exactly the legal signatures; ToType registers one assigning closure per type.",
+   "Trusted: go/parser, go/types, the strict branch parser; GetTypeName/VocabularyURI literals (C13-R6, C12-R4).", "DESIGN.md §4 C14"),
+ "C18": ("other", "abstract interpretation of every container method over the element-index invariant + structural single-representation rules, for every generated instance",
+   "Operation histories are runtime; decided for every instance are the representation invariants that make a container a plain list and an element a single slot: an interpreter over all 7,496 container-method instances of the 44 non-functional properties shows properties[i].myIdx==i ∧ parent==this restored at every exit (unrecognised writes fail); for all 103 properties clear resets every member/flag/iri/unknown, every typed setter clears first and writes exactly its member and flag, Is/Get read it, and every element literal anywhere fills at most one member with its own flag true; Next/Prev/At/Len have the stepping shape.",
+   "Index expressions compared textually (sound for the generated forms; others are reported undecided). Trusted: go/parser, go/types, e5_model.go, the interpreter's statement forms.", "DESIGN.md §4 C18"),
 }
 NOT_YET = {}
 ALL = ["C%02d" % i for i in range(1, 21)]
